@@ -323,6 +323,19 @@ Qed.
 Lemma new_attr_only_hidden attr stat : Z.land attr BRD_HIDE = 0 -> new_attr attr stat = attr.
 Proof. intros H. unfold new_attr. rewrite H. reflexivity. Qed.
 
+(* ------------------------------------------------------------------ what the entry-point theorems do not cover *)
+(* inconsistent (number, name) pair: the caller may not read the named board, yet gets its article because the
+   permission was evaluated on the board with the given number *)
+Lemma pair_mismatch_refuted : exists i_bid i_name, consistent i_bid = true /\ consistent i_name = true /\
+  may_read i_name = false /\ ep_read_post_pair i_bid 77 196 = Data 196.
+Proof.
+  exists (abs 31 false false false false BRD_POSTMASK 0), (abs 31 false false false false (BRD_HIDE + BRD_POSTMASK) 0).
+  vm_compute. auto.
+Qed.
+Lemma unguarded_helper_refuted : exists i, consistent i = true /\ may_read i = false /\
+  ep_load_same_create_time 2 [1; 2] = Data [1; 2].
+Proof. exists (abs 31 false false false false (BRD_HIDE + BRD_POSTMASK) 0). vm_compute. auto. Qed.
+
 (* ------------------------------------------------------------------ packaged statements for Props/C07.v *)
 Lemma rule_on_bits : forall ulevel o18 inbm fr nbm battr blevel,
   perm_stat_bits ulevel o18 inbm fr battr blevel = perm_stat (abs ulevel o18 inbm fr nbm battr blevel) /\
